@@ -234,6 +234,16 @@ def d2_quad(ctx):
         rets = [s for s in statements(f) if isinstance(s, ast.Return)]
         plain = [s for s in rets if any(pol and unparse(t) in ('len(derivint) == 0', 'not derivint', 'not pobs and (not bobs)', 'not bobs and (not pobs)', 'len(pobs) + len(bobs) == 0',
                                                           'len(pobs) == 0 and len(bobs) == 0') for t, pol in guards_of(m, s, stop=f))]
+        # every return that is not the propagated observable needs the 'nothing is an observable' guard
+        for r_ in rets:
+            if r_ in plain:
+                continue
+            if isinstance(r_.value, ast.Name) or (isinstance(r_.value, ast.Call) and call_name(r_.value) == 'derived_observable'):
+                continue
+            if any(isinstance(x, ast.Name) and any(isinstance(d_.value, ast.Call) and call_name(d_.value) == 'derived_observable' for d_ in find_def(f, x.id)) for x in ast.walk(r_.value)):
+                continue        # contains the propagated observable
+            ctx.violated(rule, 'integrate.py:quad#unpropagated-return[%s]' % unparse(r_.value)[:30], 'quad returns `%s` under %s without error propagation although parameters or limits may be observables' % (
+                unparse(r_.value), [unparse(t) for t, pol in guards_of(m, r_, stop=f) if pol]), m.loc(r_))
         ctx.check(rule, 'integrate.py:quad#plain', len(plain) == 1 and unparse(plain[0].value) == 'integration_result', 'without observables scipy\'s result is returned', 'plain return: %s' % [unparse(s.value) for s in plain])
     # sibling agreement: the integral of the value and the integrals of the parameter derivatives are the same integral
     # (same weight function, same singular points, same accuracy): every call of the integrator forwards the same options
